@@ -204,6 +204,8 @@ def parse_vspec(path):
                     else:
                         fn = m.group(2)
                     rest = m.group(3)
+                if pos not in ("before", "after", "first", "last"):
+                    raise SystemExit(f"{path}:{ln}: @@hint position must be before|after|first|last")
                 cur = ("hint", pos, nth, rest, fn)
             elif d == "pin":
                 a = arg.split()
@@ -369,6 +371,15 @@ def assemble(group, outs, vac_names=None):
         start = len(lines) + 1
         lines += t.split("\n")
         line_map.append((start, len(lines), "lemmas:" + lf))
+    # format! helpers generated by vx (R3), one per distinct literal
+    seen_fmt = set()
+    for o in outs.values():
+        for name, text in o.get("fmt_helpers", []) or []:
+            if name not in seen_fmt:
+                seen_fmt.add(name)
+                start = len(lines) + 1
+                lines += text.split("\n")
+                line_map.append((start, len(lines), "fmt:" + name))
     open_mod = None
 
     def close_mod():
